@@ -50,7 +50,8 @@ type e2eRule struct {
 }
 
 type e2eCase struct {
-	App     int         `json:"app"` // 0: no trusted proxies, 1: trusted_proxies [127.0.0.2, 127.0.1.0/24]
+	App     int         `json:"app"` // 0: no trusted proxies, 1: trusted_proxies [127.0.0.2, 127.0.1.0/24]; tracing is enabled in both
+	Corr    string      `json:"corr"`
 	Peer    string      `json:"peer"`
 	Trusted bool        `json:"trusted"`
 	Method  string      `json:"method"`
@@ -83,18 +84,20 @@ type e2eOut struct {
 
 // ---- raw upstream ------------------------------------------------------------------
 
+// the upstream files what arrives under the correlation id the client put into
+// the X-Corr field (requests run in parallel)
 type e2eUpstream struct {
 	ln   net.Listener
 	mu   sync.Mutex
-	hits []e2eOut
+	hits map[string][]e2eOut
 }
 
-func (u *e2eUpstream) take() []e2eOut {
+func (u *e2eUpstream) take(corr string) []e2eOut {
 	u.mu.Lock()
 	defer u.mu.Unlock()
 
-	h := u.hits
-	u.hits = nil
+	h := u.hits[corr]
+	delete(u.hits, corr)
 
 	return h
 }
@@ -190,7 +193,7 @@ func (u *e2eUpstream) handle(conn net.Conn) {
 		}
 
 		u.mu.Lock()
-		u.hits = append(u.hits, out)
+		u.hits[hdr.Get("X-Corr")] = append(u.hits[hdr.Get("X-Corr")], out)
 		u.mu.Unlock()
 
 		resp := "HTTP/1.1 200 OK\r\nContent-Type: text/plain\r\nContent-Length: 2\r\n\r\n"
@@ -208,9 +211,9 @@ func (u *e2eUpstream) handle(conn net.Conn) {
 
 var (
 	e2eAdds    = []string{"/up", "/v2/svc", "/u%2Fp", "/%41", "up", "/", "/a;b", "/p%3Bq", "/a!b", "/a b", "/%zz"}
-	e2ePNames  = []string{"X-User", "x-id", "Authorization", "X-Custom-1", "X-Forwarded-Method", "x-forwarded-uri", "X-Forwarded-For", "Forwarded", "Host", "Cookie", "Accept-Encoding", "User-Agent"}
-	e2eVals    = []string{"alice", "bob", "Bearer abc.def", "1", "a, b", "x;y=z", "v1", "gzip", "curl/8", "a  b"}
-	e2eCNames  = []string{"X-User", "x-user", "X-USER", "Authorization", "X-Id", "X-ID", "x-custom-1", "Accept", "Accept-Encoding", "Range", "User-Agent", "Cookie", "X-Other", "X-Drop"}
+	e2ePNames  = []string{"X-User", "x-id", "Authorization", "X-Custom-1", "X-Forwarded-Method", "x-forwarded-uri", "X-Forwarded-For", "Forwarded", "Host", "Cookie", "Accept-Encoding", "User-Agent", "Traceparent", "Content-Type", "X-Request-Id", "Via"}
+	e2eVals    = []string{"alice", "bob", "Bearer abc.def", "1", "a, b", "x;y=z", "v1", "gzip", "curl/8", "a  b", "", "admin"}
+	e2eCNames  = []string{"X-User", "x-user", "X-USER", "Authorization", "X-Id", "X-ID", "x-custom-1", "Accept", "Accept-Encoding", "Range", "User-Agent", "Cookie", "X-Other", "X-Drop", "Traceparent", "traceparent", "Content-Type", "X-Request-Id", "Via", "Accept-Language"}
 	e2eWords   = []string{"api", "v1", "users", "a", "b", "files", "x.y", "~u", "A", "0"}
 	e2ePieces  = []string{"%41", "%61dmin", "%2F", "%2f", "%3B", "%2C", "%25", "%2541", "%20", "%3F", "%C3%A9", "%7E", "%5B1%5D", "%21", "%2A", "%40", "%3A", "%24", "%26", "%2B", "%3D"}
 	e2eLits    = []string{";", ",", ":", "@", "$", "&", "+", "=", "!", "*", "'", "(", ")", "\"", "^", "{", "\xc3\xa4", "%zz", "%"}
@@ -278,7 +281,7 @@ func e2eGenRule(r *vf.Rand, i int) e2eRule {
 	return rl
 }
 
-func e2eConfig(trusted []string, rules []e2eRule, upHost string) (string, string, error) {
+func e2eConfig(trusted []string, tracing bool, rules []e2eRule, upHost string) (string, string, error) {
 	type m = map[string]any
 
 	fins := []any{}
@@ -291,6 +294,10 @@ func e2eConfig(trusted []string, rules []e2eRule, upHost string) (string, string
 			hs := m{}
 			for _, h := range rl.PHdrs {
 				hs[h[0]] = h[1]
+				if h[1] == "" {
+					// a template that renders the empty string (a literally empty template is not accepted)
+					hs[h[0]] = `{{ "" }}`
+				}
 			}
 
 			fins = append(fins, m{"id": "h" + rl.ID, "type": "header", "config": m{"headers": hs}})
@@ -344,6 +351,7 @@ func e2eConfig(trusted []string, rules []e2eRule, upHost string) (string, string
 	}
 
 	cfg := m{
+		"tracing":    m{"enabled": tracing},
 		"serve":      m{"proxy": proxy},
 		"mechanisms": m{"authenticators": []any{m{"id": "anon", "type": "anonymous"}}, "finalizers": fins},
 	}
@@ -452,7 +460,12 @@ func e2eGen(r *vf.Rand, rules []e2eRule, upHost string) e2eCase {
 			name = e2eRandCase(r, name)
 		}
 
-		c.Headers = append(c.Headers, [2]string{name, vf.Pick(r, e2eVals)})
+		val := vf.Pick(r, e2eVals)
+		if http.CanonicalHeaderKey(name) == "Traceparent" && r.Chance(70) {
+			val = "00-0af7651916cd43dd8448eb211c80319c-b7ad6b7169203331-01"
+		}
+
+		c.Headers = append(c.Headers, [2]string{name, val})
 	}
 
 	if wantFwd {
@@ -508,7 +521,7 @@ func e2eGen(r *vf.Rand, rules []e2eRule, upHost string) e2eCase {
 }
 
 func e2eSend(addr string, c *e2eCase, up *e2eUpstream) e2eOut {
-	up.take()
+	up.take(c.Corr)
 
 	d := net.Dialer{LocalAddr: &net.TCPAddr{IP: net.ParseIP(c.Peer)}, Timeout: 5 * time.Second}
 
@@ -562,9 +575,13 @@ func e2eSend(addr string, c *e2eCase, up *e2eUpstream) e2eOut {
 	io.Copy(io.Discard, resp.Body) //nolint:errcheck
 	resp.Body.Close()
 
-	hits := up.take()
+	hits := up.take(c.Corr)
 	if len(hits) == 0 {
 		return e2eOut{Kind: "notforwarded", Status: resp.StatusCode}
+	}
+
+	if len(hits) > 1 {
+		return e2eOut{Kind: "duplicated", Status: resp.StatusCode}
 	}
 
 	out := hits[0]
@@ -606,7 +623,7 @@ func e2eCoq(c *e2eCase, o e2eOut) string {
 	}
 
 	req := vf.CoqApp("rq", vf.CoqStr(c.Method), vf.CoqStr(c.Raw), vf.CoqStr(c.Query), vf.CoqStr(c.Host),
-		e2ePairs(c.Headers), vf.CoqStr(c.Body), vf.CoqStr(c.Peer), vf.CoqBool(c.Trusted), xfu)
+		e2ePairs(c.Headers), vf.CoqStr(c.Body), "false", vf.CoqStr(c.Peer), vf.CoqBool(c.Trusted), xfu)
 	pl := vf.CoqApp("pln", e2ePairs(c.Rule.PHdrs), e2ePairs(c.Rule.PCooks))
 
 	rw := "None"
@@ -615,7 +632,7 @@ func e2eCoq(c *e2eCase, o e2eOut) string {
 	}
 
 	setting := map[string]string{"off": "Off", "on": "On", "no_decode": "NoDecode"}[c.Rule.Setting]
-	rul := vf.CoqApp("rul", setting, vf.CoqStr(c.UpHost), rw, "false")
+	rul := vf.CoqApp("rul", setting, vf.CoqStr(c.UpHost), rw, "false", "true")
 
 	var obs string
 
@@ -625,6 +642,8 @@ func e2eCoq(c *e2eCase, o e2eOut) string {
 		obs = vf.CoqApp("Forwarded", "false", vf.CoqStr(o.Method), vf.CoqStr(o.URI), vf.CoqStr(o.Host), hdrs, vf.CoqStr(o.Body))
 	case "notforwarded":
 		obs = vf.CoqApp("NotForwarded", vf.CoqZ(int64(o.Status)))
+	case "duplicated":
+		obs = "(NotForwarded (-2)%Z)"
 	default:
 		obs = "(NotForwarded (-1)%Z)"
 	}
@@ -643,7 +662,7 @@ func TestVerifC15E2E(t *testing.T) {
 		t.Fatal(err)
 	}
 
-	up := &e2eUpstream{ln: ln}
+	up := &e2eUpstream{ln: ln, hits: map[string][]e2eOut{}}
 	go up.serve()
 
 	defer ln.Close()
@@ -661,8 +680,13 @@ func TestVerifC15E2E(t *testing.T) {
 
 	addrs := make([]string, len(e2eTrust))
 
+	// tracing is enabled as in heimdall's default configuration (the tracer provider and the
+	// propagator are process-global, so it is on for both applications): spans are created and
+	// propagated, nothing is exported
+	t.Setenv("OTEL_TRACES_EXPORTER", "none")
+
 	for i, trusted := range e2eTrust {
-		cfg, rls, err := e2eConfig(trusted, rules, upHost)
+		cfg, rls, err := e2eConfig(trusted, true, rules, upHost)
 		if err != nil {
 			t.Fatal(err)
 		}
@@ -678,7 +702,8 @@ func TestVerifC15E2E(t *testing.T) {
 	}
 
 	// the rule sets are loaded asynchronously by the file-system provider
-	probe := e2eCase{Peer: "127.0.0.1", Method: "GET", Raw: "/r0/probe", Host: "h", Rule: rules[0], UpHost: upHost}
+	probe := e2eCase{Peer: "127.0.0.1", Method: "GET", Raw: "/r0/probe", Host: "h", Rule: rules[0], UpHost: upHost, Corr: "probe",
+		Headers: [][2]string{{"X-Corr", "probe"}}}
 	for i := range addrs {
 		deadline := time.Now().Add(10 * time.Second)
 		for {
@@ -691,38 +716,86 @@ func TestVerifC15E2E(t *testing.T) {
 	}
 
 	n := vf.N(300)
-	idx, skipped := 0, 0
+	skipped := 0
 
-	for i := 0; i < n; i++ {
-		c := e2eGen(root.Fork(uint64(i)), rules, upHost)
+	// the cases are generated up front and sent in parallel batches: a value that
+	// leaks from one request into another (a shared buffer, a cached proxy object)
+	// shows up as a mismatch of some case against its own expectation
+	const batch = 8
 
-		if vf.Want(idx) {
-			o := e2eSend(addrs[c.App], &c, up)
-			if o.Kind == "notforwarded" && o.Status == http.StatusNotFound {
-				// no rule matched (rule lookup is C02/C03/C08's subject): not a case of this stream
-				skipped++
-			} else {
-				tags := []string{"e2e:" + o.Kind, "e2e:setting:" + c.Rule.Setting}
-				if c.Trusted {
-					tags = append(tags, "e2e:trusted")
-				}
+	cases := make([]e2eCase, n)
+	outs := make([]e2eOut, n)
 
-				if len(c.Rule.PHdrs) > 0 {
-					tags = append(tags, "e2e:header-finalizer")
-				}
+	for i := range cases {
+		cases[i] = e2eGen(root.Fork(uint64(i)), rules, upHost)
+		cases[i].Corr = fmt.Sprintf("c%d", i)
+		cases[i].Headers = append(cases[i].Headers, [2]string{"X-Corr", cases[i].Corr})
+	}
 
-				if len(c.Rule.PCooks) > 0 {
-					tags = append(tags, "e2e:cookie-finalizer")
-				}
+	for lo := 0; lo < n; lo += batch {
+		var wg sync.WaitGroup
 
-				key := c
-				key.UpHost = ""
-				w.Put(vf.Obs{I: idx, Stream: "e2e", In: c, Out: o, Coq: e2eCoq(&c, o), Nontrivial: o.Kind == "forwarded",
-					Key: vf.KeyOf(key), Tags: tags})
+		for i := lo; i < min(lo+batch, n); i++ {
+			if !vf.Want(i) {
+				continue
 			}
+
+			wg.Add(1)
+
+			go func(i int) {
+				defer wg.Done()
+
+				o := e2eSend(addrs[cases[i].App], &cases[i], up)
+				for try := 0; o.Kind == "error" && try < 3; try++ {
+					time.Sleep(200 * time.Millisecond)
+					o = e2eSend(addrs[cases[i].App], &cases[i], up)
+				}
+
+				outs[i] = o
+			}(i)
 		}
 
-		idx++
+		wg.Wait()
+	}
+
+	for i := range cases {
+		if !vf.Want(i) {
+			continue
+		}
+
+		c, o := cases[i], outs[i]
+
+		switch {
+		case o.Kind == "error":
+			t.Fatalf("infrastructure failure on case %d (not a verdict about heimdall): %s", i, o.Err)
+		case o.Kind == "notforwarded" && o.Status == http.StatusNotFound:
+			// no rule matched (rule lookup is C02/C03/C08's subject): not a case of this stream
+			skipped++
+		default:
+			tags := []string{"e2e:" + o.Kind, "e2e:setting:" + c.Rule.Setting}
+			if c.Trusted {
+				tags = append(tags, "e2e:trusted")
+			}
+
+			for _, h := range c.Rule.PHdrs {
+				if http.CanonicalHeaderKey(h[0]) == "Traceparent" {
+					tags = append(tags, "e2e:pipeline-traceparent")
+				}
+			}
+
+			if len(c.Rule.PHdrs) > 0 {
+				tags = append(tags, "e2e:header-finalizer")
+			}
+
+			if len(c.Rule.PCooks) > 0 {
+				tags = append(tags, "e2e:cookie-finalizer")
+			}
+
+			key := c
+			key.UpHost = ""
+			w.Put(vf.Obs{I: i, Stream: "e2e", In: c, Out: o, Coq: e2eCoq(&c, o), Nontrivial: o.Kind == "forwarded",
+				Key: vf.KeyOf(key), Tags: tags})
+		}
 	}
 
 	t.Logf("e2e: %d requests, %d without a matching rule (skipped)", n, skipped)
